@@ -46,7 +46,9 @@ CLAIMS = {
         "counts, lengths and offsets fit every field, so that all accessors read it back (parseEvent_wellformed, tagsFromJson_wellformed, "
         "parseFilter_wellformed). Direct oracle on the real code, in a debug (overflow-checked) and "
         "a release build: no panic/abort/hang, guard bytes intact, consumed <= input, all accessors/serializers total on every Ok, over every prefix "
-        "of valid texts, single-byte corruptions incl. bytes >= 0x80, deep nesting to 200,000, 400-digit numbers, every buffer length.",
+        "of valid texts, single-byte corruptions incl. bytes >= 0x80, texts on which the skipping pass and the decoding pass disagree about where a string ends "
+        "(UTF-8 lead byte before a closing quote), NIP-45 count filters with every byte class at the probed position, deep nesting to 200,000, 400-digit numbers, "
+        "every buffer length.",
    note=PROOF_NOTE + "Stack exhaustion depends on the platform stack size (the worker exhibits aborts; the model bounds depth). Addr::try_from_bytes is modelled (parseAddr, used by the deletion model) and compared on valid, malformed and mutated inputs; it has no theorem of its own.",
    technique="Lean 4 proof (totality by induction on fuel/structure; invariant over the member loop) + direct no-panic/guard-byte oracle in two build modes + differential correspondence",
    design="6/C03"),
@@ -163,7 +165,8 @@ CLAIMS = {
    text="Lean theorems for every reachable state and EVERY stored event (any kind, any tag list in any order, whatever it returns): an event of another key "
         "that was retrievable stays retrievable and reads back unchanged; no deletion marker appears on another key's stored event; no address marker of "
         "another key changes; over whole histories of events by other keys the victim stays. Correspondence + direct oracle: requests with 0-5 e/a tags "
-        "mixing own/foreign/absent/malformed targets at random points of histories; every foreign event retrievable and unmarked afterwards.",
+        "mixing own/foreign/absent/malformed targets at random points of histories; every foreign event retrievable and unmarked afterwards; plus forced "
+        "two-thread schedules: another author's request (by id and by address) overlapping the victim's store at every yield point - a victim stored successfully stays retrievable and unmarked.",
    note=PROOF_NOTE + 'Modelled, not verified: LMDB (ordered maps, snapshot reads inside a write transaction, atomic commit), the mmap-append event map; the seven index tables are modelled as functions of the set of indexed events with range scans as filter+key-order sort. ' + "Victims are retrievable events; a marker placed on an id that is not stored is the code's documented choice and outside the property.",
    technique="Lean 4 proof (induction over the request's tag list with a confinement invariant) + differential correspondence + direct oracle",
    design="6/C10"),
@@ -209,7 +212,9 @@ CLAIMS = {
         "in either serial order is refused as duplicate (exactly one winner). Correspondence: a schedule controller pauses thread A at each verif yield point "
         "while thread B runs (pairs of fresh / duplicate / replaceable / deletion / removal operations, always incl. a deletion racing with the event it "
         "names); replies, blocking behaviour and the battery afterwards must equal the serial order run on the real store, which in turn is compared with the "
-        "model's serial execution; plus 16-thread stress runs judged by 'some serial order explains it' invariants.",
+        "model's serial execution; SPANNING QUERIES: a query paused inside the caller's screening callback at the first event it examines while two further events are stored (one in "
+        "the index range it has entered, one in a range it has not reached), for every multi-range plan - its answer must be the answer of one committed state "
+        "(before, between, after), never the later store without the earlier; plus 16-thread stress runs judged by 'some serial order explains it' invariants.",
    note=PROOF_NOTE + 'Modelled, not verified: LMDB (ordered maps, snapshot reads inside a write transaction, atomic commit), the mmap-append event map; the seven index tables are modelled as functions of the set of indexed events with range scans as filter+key-order sort. ' + "PARTIAL: the model has the lock, snapshots and atomic commit by construction; LMDB's writer mutex, NO_TLS read transactions, the RwLock/Mutex in mmap-append and the memory model are trusted; a reordering bug inside one yield-free region is out of reach. For ephemeral kinds every submission succeeds (they are never indexed): 'exactly one succeeds' is stated for non-ephemeral events.",
    technique="Lean 4 proof (induction over schedules of a lock-based small-step model) + forced-schedule correspondence through yield points + stress",
    design="6/C14"),
